@@ -132,7 +132,7 @@ def Node.totalSize (t : Node) : Nat :=
 def joinSlash : List Bytes → Bytes
   | [] => []
   | [c] => c
-  | c :: cs => c ++ 47 :: joinSlash cs
+  | c :: c2 :: cs => c ++ 47 :: joinSlash (c2 :: cs)
 
 /-- The item header of an entry (`NewFileHeader(subPath, isDir)`). -/
 def Entry.header (e : Entry) : Bytes := fileHeader (joinSlash e.path) e.isDir
@@ -222,7 +222,7 @@ theorem splitSlash_joinSlash (cs : List Bytes) (hne : cs ≠ []) (h : ∀ c ∈ 
     cases cs with
     | nil => simpa [joinSlash] using splitSlash_noslash c (h c (by simp))
     | cons c2 cs2 =>
-      rw [joinSlash, splitSlash_append_slash c _ (h c (by simp)), ih (by simp) (fun x hx => h x (by simp [hx]))]
+      rw [joinSlash, splitSlash_append_slash c _ (h c (by simp)), ih (List.cons_ne_nil _ _) (fun x hx => h x (by simp [hx]))]
 
 -- ---------------------------------------------------------------- folder upload
 
@@ -291,9 +291,30 @@ structure ItemRes where
   wrote : Bytes    -- what the server writes while handling the item
   ok : Bool        -- false: the handler returned an error (the loop ends)
 
-/-- One iteration of `UploadFolderHandler`'s loop.  `cut = some n`: the connection dies after `n`
-    bytes of what the client sends in response to the answer (4-byte size, then the flattened file);
-    `none`: everything arrives. -/
+/-- What arrives of the flattened file the client sends after a "send"/"resume" answer.
+    `cut = some n`: the connection dies after `n` bytes of (4-byte size, flattened file); `none` when not
+    even the size arrived.  `cut = none`: everything arrives. -/
+def clientDelivery (it : UpItem) (off : Nat) (cut : Option Nat) : Option Bytes :=
+  let s := uploadStream it.fc it.info (it.data.drop off) it.rsrc
+  match cut with
+  | none => some s
+  | some n => if n < 4 then none else some (s.take (n - 4))
+
+/-- The file branch after the answer `ans` (send or resume) was written. -/
+def upFile (fs : Fs) (p : List Bytes) (ans : Answer) (del : Option Bytes) : ItemRes :=
+  match del with
+  | none => { fs := fs, wrote := ans.bytes, ok := false }           -- reading the 4-byte size fails
+  | some recv =>
+    if fs.parentOK p = false ∧ ans = .send then { fs := fs, wrote := ans.bytes, ok := false }  -- opening `.incomplete` fails
+    else
+      let r := receiveFile recv
+      let inc1 := ((fs.get p).inc.getD []) ++ r.appended
+      if r.complete then
+        { fs := fs.set p { final := some (.file inc1), inc := none }, wrote := ans.bytes ++ [0, 3], ok := true }
+      else
+        { fs := fs.set p { (fs.get p) with inc := some inc1 }, wrote := ans.bytes, ok := false }
+
+/-- One iteration of `UploadFolderHandler`'s loop. -/
 def upItem (fs : Fs) (it : UpItem) (cut : Option Nat) : ItemRes :=
   if it.isDir then
     if (fs.get it.path).final.isSome then { fs := fs, wrote := [0, 3], ok := true }
@@ -301,22 +322,10 @@ def upItem (fs : Fs) (it : UpItem) (cut : Option Nat) : ItemRes :=
       { fs := fs.set it.path { (fs.get it.path) with final := some .dir }, wrote := [0, 3], ok := true }
     else { fs := fs, wrote := [], ok := false }
   else
-    let ans := fs.answer it.path
-    match ans with
-    | .next => { fs := fs, wrote := ans.bytes, ok := true }
-    | .send | .resume _ =>
-      let off := match ans with | .resume o => o | _ => 0
-      let stream := be32 0 ++ uploadStream it.fc it.info (it.data.drop off) it.rsrc
-      let got := match cut with | some n => stream.take n | none => stream
-      if got.length < 4 then { fs := fs, wrote := ans.bytes, ok := false }
-      else if !(fs.parentOK it.path) && ans == .send then { fs := fs, wrote := ans.bytes, ok := false }
-      else
-        let r := receiveFile (got.drop 4)
-        let inc1 := ((fs.get it.path).inc.getD []) ++ r.appended
-        if r.complete then
-          { fs := fs.set it.path { final := some (.file inc1), inc := none }, wrote := ans.bytes ++ [0, 3], ok := true }
-        else
-          { fs := fs.set it.path { (fs.get it.path) with inc := some inc1 }, wrote := ans.bytes, ok := false }
+    match fs.answer it.path with
+    | .next => { fs := fs, wrote := [0, 3], ok := true }
+    | .send => upFile fs it.path .send (clientDelivery it 0 cut)
+    | .resume off => upFile fs it.path (.resume off) (clientDelivery it off cut)
 
 /-- The loop: stops at the first error. -/
 def uploadItems (fs : Fs) : List (UpItem × Option Nat) → Fs × List Bytes × Bool
@@ -352,6 +361,18 @@ theorem receiveFile_whole (fc : Nat) (i : InfoFork) (d r : Bytes)
   rw [h.1]; apply List.take_of_length_le
   split at hl <;> omega
 
+theorem upFile_frame (fs : Fs) (p : List Bytes) (ans : Answer) (del : Option Bytes) (q : List Bytes) (hq : p ≠ q) :
+    (upFile fs p ans del).fs.get q = fs.get q := by
+  unfold upFile
+  split
+  · rfl
+  · split
+    · rfl
+    · dsimp only
+      split
+      · exact Fs.get_set_other _ _ _ _ hq
+      · exact Fs.get_set_other _ _ _ _ hq
+
 /-- A file item whose name is free, delivered completely: answered "send", published with exactly the
     client's bytes; nothing else changes. -/
 theorem upItem_fresh_file (fs : Fs) (it : UpItem) (hf : it.isDir = false) (hok : it.OK)
@@ -362,9 +383,10 @@ theorem upItem_fresh_file (fs : Fs) (it : UpItem) (hf : it.isDir = false) (hok :
   · rw [hf] at hd; cases hd
   have hans : fs.answer it.path = .send := by simp [Fs.answer, hfree]
   obtain ⟨ha, hc⟩ := receiveFile_whole it.fc it.info it.data it.rsrc hi hfc hd hr
-  unfold upItem
-  simp only [hf, hans, hpar, hfree]
-  simp [ha, hc, Answer.bytes]
+  have hup : upItem fs it none = upFile fs it.path .send (some (uploadStream it.fc it.info it.data it.rsrc)) := by
+    unfold upItem; rw [hans]; simp [hf, clientDelivery]
+  rw [hup]; unfold upFile
+  simp [hpar, ha, hc, hfree, Answer.bytes]
 
 /-- A file item whose partial file holds the first `k` bytes, delivered completely from that offset:
     answered "resume k", published with exactly the client's bytes, the partial file is gone. -/
@@ -380,9 +402,10 @@ theorem upItem_resume_file (fs : Fs) (it : UpItem) (k : Nat) (hf : it.isDir = fa
   have hdk : (it.data.drop k).length < 4294967296 := by rw [List.length_drop]; omega
   obtain ⟨ha, hc⟩ := receiveFile_whole it.fc it.info (it.data.drop k) it.rsrc hi hfc hdk hr
   refine ⟨hans, ?_⟩
-  unfold upItem
-  simp only [hf, hans, hinc]
-  simp [ha, hc]
+  have hup : upItem fs it none = upFile fs it.path (.resume k) (some (uploadStream it.fc it.info (it.data.drop k) it.rsrc)) := by
+    unfold upItem; rw [hans]; simp [hf, clientDelivery]
+  rw [hup]; unfold upFile
+  simp [ha, hc, hinc]
 
 /-- A file item whose name already exists (and has no partial file): answered "next", nothing changes. -/
 theorem upItem_existing_file (fs : Fs) (it : UpItem) (cut : Option Nat) (hf : it.isDir = false)
@@ -390,7 +413,7 @@ theorem upItem_existing_file (fs : Fs) (it : UpItem) (cut : Option Nat) (hf : it
     (upItem fs it cut).ok = true ∧ (upItem fs it cut).wrote = [0, 3] ∧ (upItem fs it cut).fs = fs := by
   have hans : fs.answer it.path = .next := by simp [Fs.answer, hinc, hx]
   unfold upItem
-  simp [hf, hans, Answer.bytes]
+  rw [hans]; simp [hf]
 
 /-- A folder item: created if absent (below an existing folder), answered "next". -/
 theorem upItem_folder (fs : Fs) (it : UpItem) (cut : Option Nat) (hd : it.isDir = true)
@@ -399,6 +422,13 @@ theorem upItem_folder (fs : Fs) (it : UpItem) (cut : Option Nat) (hd : it.isDir 
     (upItem fs it cut).fs = fs.set it.path { final := some .dir } := by
   unfold upItem
   simp [hd, hfree, hpar]
+
+/-- A folder item whose name exists already: answered "next", nothing changes. -/
+theorem upItem_existing_folder (fs : Fs) (it : UpItem) (cut : Option Nat) (hd : it.isDir = true)
+    (x : Final) (hx : (fs.get it.path).final = some x) :
+    (upItem fs it cut).ok = true ∧ (upItem fs it cut).wrote = [0, 3] ∧ (upItem fs it cut).fs = fs := by
+  unfold upItem
+  simp [hd, hx]
 
 /-- Frame: an item touches only its own path. -/
 theorem upItem_frame (fs : Fs) (it : UpItem) (cut : Option Nat) (q : List Bytes) (hq : it.path ≠ q) :
@@ -412,22 +442,8 @@ theorem upItem_frame (fs : Fs) (it : UpItem) (cut : Option Nat) (q : List Bytes)
       · rfl
   · split
     · rfl
-    · dsimp only
-      split
-      · rfl
-      · split
-        · rfl
-        · split
-          · exact Fs.get_set_other _ _ _ _ hq
-          · exact Fs.get_set_other _ _ _ _ hq
-    · dsimp only
-      split
-      · rfl
-      · split
-        · rfl
-        · split
-          · exact Fs.get_set_other _ _ _ _ hq
-          · exact Fs.get_set_other _ _ _ _ hq
+    · exact upFile_frame _ _ _ _ _ hq
+    · exact upFile_frame _ _ _ _ _ hq
 
 /-- A cut inside a fresh file item leaves exactly the received prefix in the partial file and no final name. -/
 theorem upItem_cut_file (fs : Fs) (it : UpItem) (n : Nat) (hf : it.isDir = false) (hok : it.OK)
@@ -441,14 +457,11 @@ theorem upItem_cut_file (fs : Fs) (it : UpItem) (n : Nat) (hf : it.isDir = false
   obtain ⟨ha, hc⟩ := receiveFile_prefix it.fc it.info it.data it.rsrc (n - 4) hi hfc hd hr
   have hnc : ¬ ((uploadStream it.fc it.info it.data it.rsrc).length ≤ n - 4) := by omega
   simp only [hnc, decide_false] at hc
-  have hgl : ((be32 0 ++ uploadStream it.fc it.info it.data it.rsrc).take n).length = n := by
-    rw [List.length_take]; simp; omega
-  have hdrop : ((be32 0 ++ uploadStream it.fc it.info it.data it.rsrc).take n).drop 4
-      = (uploadStream it.fc it.info it.data it.rsrc).take (n - 4) := by
-    rw [List.drop_take, List.drop_left' (be32_length 0)]
-  unfold upItem
-  simp only [hf, hans, hpar, hfree, List.drop_zero]
-  have e1 : ¬ (((be32 0 ++ uploadStream it.fc it.info it.data it.rsrc).take n).length < 4) := by omega
-  simp [e1, hdrop, ha, hc]
+  have hup : upItem fs it (some n) = upFile fs it.path .send (some ((uploadStream it.fc it.info it.data it.rsrc).take (n - 4))) := by
+    unfold upItem; rw [hans]
+    have : ¬ (n < 4) := by omega
+    simp [hf, clientDelivery, this]
+  rw [hup]; unfold upFile
+  simp [hpar, ha, hc, hfree]
 
 end Mobius
